@@ -38,6 +38,9 @@ func (rs *ReedSolomonEncoder) Encode(data []int, eccCount int) []int {
 	_, remainder := info.Divide(generator)
 
 	result := make([]int, eccCount)
+	if eccCount == 0 {
+		return result
+	}
 	numZero := int(eccCount) - len(remainder.Coefficients)
 	copy(result[numZero:], remainder.Coefficients)
 	return result
